@@ -230,6 +230,8 @@ class IsoAbsCalG(AbsCalG):
     """The ISO calendar seen through the calendar interface contract: an abstract calendar with ordinal 0 that also
     stands in for the live `CalendarSystem.iso` object (default arguments, `CalendarSystem.iso`)."""
 
+    fixed_ordinal = 0
+
     def make(self, name, b):
         ac = super().make(name, b)
         b.assume(ac.ordinal == 0)
@@ -320,3 +322,145 @@ def ZoneYearOffsetG() -> Obj:
         },
         inv=inv,
     )
+
+
+# ------------------------------------------------------------------------------------------ stdlib datetime values (C15)
+GREGORIAN_ORDINAL = 1
+
+
+class GregAbsCalG(AbsCalG):
+    """The Gregorian calendar seen through the calendar interface contract; it stands in for the live
+    `CalendarSystem.gregorian` AND for the proleptic Gregorian calendar of the standard library (specs/dt_models.py).
+    The facts assumed here about it (year range, 12 months, day numbers of 0001-01-01 and 9999-12-31) are ground
+    obligations of the real Gregorian calculator in contracts/c15_bridge.py."""
+
+    fixed_ordinal = GREGORIAN_ORDINAL
+
+    def make(self, name, b):
+        from pyvc.sym import And
+        from specs import cal_abs, dt_models
+
+        ac = super().make(name, b)
+        b.assume(ac.ordinal == GREGORIAN_ORDINAL)
+        greg_facts(ac, b)
+        orig_register = ac.register
+
+        def register(eng, ac=ac, orig=orig_register):
+            orig(eng)
+            from pyoda_time import CalendarSystem
+
+            eng.alias[id(CalendarSystem.gregorian)] = ac.system
+            dt_models.GREG[0] = ac
+
+        ac.register = register
+        return ac
+
+    def realize(self, v, ev, ctx):
+        ctx.setdefault("ordinal_override", {})[self.name] = GREGORIAN_ORDINAL
+        return super().realize(v, ev, ctx)
+
+
+def greg_facts(ac, b):
+    """Year range and the day numbers of 0001-01-01 / 9999-12-31 of the Gregorian/ISO calculator (ground obligations
+    of the real calculator in contracts/c15_bridge.py)."""
+    from pyvc.sym import And
+    from specs import cal_abs, dt_models
+
+    b.assume(And(ac.min_year == -9998, ac.max_year == 9999))
+    for y in (1, 10000):
+        for ax in ac.ax_year(y):
+            b.assume(ax)
+    b.assume(And(cal_abs.soy(ac.cid, 1) == dt_models.MIN_ORD, cal_abs.soy(ac.cid, 10000) == dt_models.MAX_ORD + 1))
+    b.assume(ac.ax_mono(1, 10000))
+    b.assume(ac.ax_mono(-9998, 1))
+
+
+class IsoStdCalG(IsoAbsCalG):
+    """ISO calendar (shares the Gregorian calculator) with the same facts."""
+
+    def make(self, name, b):
+        ac = super().make(name, b)
+        greg_facts(ac, b)
+        return ac
+
+
+class _StdG(Gen):
+    def realize(self, v, ev, ctx):
+        if ctx.get("randomised"):
+            # boundary-biased draw: abstract counterexamples about stdlib values usually sit at the range ends
+            from pyvc.sym import SInt
+            from specs import dt_models as DT
+
+            rng = ctx["rng"]
+
+            def bev(x):
+                if not isinstance(x, SInt):
+                    return x
+                nm = str(x.t)
+                if nm.endswith(".ord"):
+                    return rng.choice([DT.MIN_ORD + rng.randint(0, 400), DT.MAX_ORD - rng.randint(0, 400), rng.randint(DT.MIN_ORD, DT.MAX_ORD)])
+                if nm.endswith(".us") and "utcoffset" not in nm:
+                    return rng.choice([0, DT.US_DAY - 1, rng.randint(0, DT.US_DAY - 1)])
+                if nm.endswith("utcoffset_us"):
+                    return rng.choice([-1, 1, 0]) * rng.choice([3600, 64800, 1800, 86399]) * 1_000_000
+                return ev(x)
+
+            try:
+                return v.pyvc_concretize(bev, True)
+            except (ValueError, OverflowError):
+                pass
+        return v.pyvc_concretize(ev, True)
+
+
+class StdDateG(_StdG):
+    def make(self, name, b):
+        from pyvc import sym
+        from pyvc.sym import And
+        from specs import dt_models as DT
+
+        o = sym.var_int(f"{name}.ord")
+        b.assume(And(o >= DT.MIN_ORD, o <= DT.MAX_ORD))
+        return DT.MDate(o)
+
+
+class StdTimeG(_StdG):
+    def make(self, name, b):
+        from pyvc import sym
+        from pyvc.sym import And
+        from specs import dt_models as DT
+
+        h, mi, s, us = (sym.var_int(f"{name}.{k}") for k in ("hour", "minute", "second", "microsecond"))
+        b.assume(And(h >= 0, h <= 23, mi >= 0, mi <= 59, s >= 0, s <= 59, us >= 0, us <= 999_999))
+        return DT.MTime(h, mi, s, us, None)
+
+
+class StdDatetimeG(_StdG):
+    """naive (aware=False) or aware with a fixed utcoffset of whole microseconds strictly within +-24 h."""
+
+    def __init__(self, aware: bool = False) -> None:
+        self.aware = aware
+
+    def make(self, name, b):
+        from pyvc import sym
+        from pyvc.sym import And
+        from specs import dt_models as DT
+
+        o, us = sym.var_int(f"{name}.ord"), sym.var_int(f"{name}.us")
+        b.assume(And(o >= DT.MIN_ORD, o <= DT.MAX_ORD, us >= 0, us < DT.US_DAY))
+        tz = None
+        if self.aware:
+            off = sym.var_int(f"{name}.utcoffset_us")
+            b.assume(And(off > -DT.US_DAY, off < DT.US_DAY))
+            tz = DT.MTz(off)
+        return DT.MDateTime(o, us, tz)
+
+
+class StdTimedeltaG(_StdG):
+    def make(self, name, b):
+        from pyvc import sym
+        from pyvc.sym import And
+        from specs import dt_models as DT
+
+        us = sym.var_int(f"{name}.us")
+        b.assume(And(us >= -DT.TD_MAX_DAYS * DT.US_DAY, us < (DT.TD_MAX_DAYS + 1) * DT.US_DAY))
+        return DT.MDelta(us)
